@@ -407,7 +407,9 @@ func simpleChain(text string) ([]string, bool) {
 	return ops, true
 }
 
-func exprEqual(a, b influxql.Expr) bool { return sexpExpr(a) == sexpExpr(b) }
+func exprEqual(a, b influxql.Expr) bool {
+	return strictly(func() string { return sexpExpr(a) }) == strictly(func() string { return sexpExpr(b) })
+}
 
 // propParseExpr: (C03) chains group by the five levels, left associative; (C02/C03) printing the
 // tree and parsing it again gives the same tree.
